@@ -9,7 +9,7 @@ From Coq Require Import ZifyBool.
 Ltac w_simpl := cbn [w_now w_start w_attempts w_retries w_executions w_cell w_seq w_scopes w_copies w_ext w_ctxkey
                      w_breakers w_limiters w_bulkheads w_caches w_retry w_script w_trace w_oof w_hedges w_bg w_hs
                      set_now set_counters set_cell set_scopes set_copies set_insts set_retry set_script set_trace set_oof set_hedge
-                     emit ev_with_result set_copy_last] in *.
+                     emit stamp ev_with_result set_copy_last] in *.
 
 (* the fields that neither a cancellation source nor the return of a background hedge attempt ever touches *)
 Record same_policy_state (w w' : world) : Prop := {
@@ -102,7 +102,7 @@ Qed.
 (* a miss returns the inner result unchanged (value, error and flags) *)
 Theorem cache_miss_returns_inner pos inst cfg (inner : layer) c w :
   (cache_key w cfg = 0 \/ cache_get (nth inst (w_caches w) []) (cache_key w cfg) = None) ->
-  fst (cache_layer pos inst cfg inner c w) = fst (inner c (emit w KCacheMiss pos (snapshot w c) 0)).
+  fst (cache_layer pos inst cfg inner c w) = fst (inner c (stamp (emit w KCacheMiss pos (snapshot w c) 0) c)).
 Proof.
   intros H. unfold cache_layer.
   assert (Hh : (if cache_key w cfg =? 0 then None else cache_get (nth inst (w_caches w) []) (cache_key w cfg)) = None).
@@ -117,7 +117,7 @@ Definition cacheable (cfg : cache_cfg) (o : outcome) : bool :=
    cacheable and the key is not empty; with an empty key the cache is never written *)
 Theorem cache_stored_iff_cacheable pos inst cfg (inner : layer) c w :
   (cache_key w cfg = 0 \/ cache_get (nth inst (w_caches w) []) (cache_key w cfg) = None) ->
-  let w1 := emit w KCacheMiss pos (snapshot w c) 0 in
+  let w1 := stamp (emit w KCacheMiss pos (snapshot w c) 0) c in
   let r := fst (inner c w1) in let w2 := snd (inner c w1) in
   w_caches (snd (cache_layer pos inst cfg inner c w)) =
     if cacheable cfg (pr_out r) && negb (cache_key w cfg =? 0)
@@ -487,6 +487,9 @@ Proof. revert n; induction l as [|x l IH]; intros [|n] H; cbn in *; try lia; aut
 Lemma upd_length {A} (l : list A) n f : length (upd n f l) = length l.
 Proof. revert n; induction l as [|x l IH]; intros [|n]; cbn; auto. Qed.
 
+Lemma stamp_bulkheads w c : w_bulkheads (stamp w c) = w_bulkheads w.
+Proof. unfold stamp. destruct (w_trace w); reflexivity. Qed.
+
 Definition held_of (w : world) (inst : nat) : Z := snd (nth inst (w_bulkheads w) (0, 0)).
 
 (* whatever the inner layer does (succeed, fail, be cancelled, time out), provided it leaves this
@@ -509,7 +512,7 @@ Proof.
     destruct (nth inst (w_bulkheads w2) (0, 0)) as [cap2 held2] eqn:E2. cbn [snd w_bulkheads set_insts].
     rewrite nth_upd_same by exact Hl. rewrite E2. cbn [snd] in *.
     subst w1. cbn [w_bulkheads set_insts] in Hh. rewrite nth_upd_same in Hh by exact Hi. rewrite En in Hh. cbn [snd] in Hh. lia.
-  - destruct (mw =? 0); [cbn [snd]; unfold emit; cbn [w_bulkheads set_trace]; rewrite En; reflexivity|].
+  - destruct (mw =? 0); [cbn [snd]; rewrite stamp_bulkheads; unfold emit; cbn [w_bulkheads set_trace]; rewrite En; reflexivity|].
     pose proof (wait_sps w mw (Some c)) as Hw. destruct (wait w mw (Some c)) as [i w1]. cbn [snd] in Hw.
-    destruct i; cbn [snd]; unfold emit; cbn [w_bulkheads set_trace]; rewrite (sp_bu _ _ Hw), En; reflexivity.
+    destruct i; cbn [snd]; rewrite ?stamp_bulkheads; unfold emit; cbn [w_bulkheads set_trace]; rewrite (sp_bu _ _ Hw), En; reflexivity.
 Qed.
